@@ -145,7 +145,7 @@ func quick(g *gwbox.Gateway, host, path string) (int, int) {
 
 func TestPropRemovalCutsInflight(t *testing.T) {
 	sub := stats.NewSub("removal-timing", "rapid: what is removed (cluster c1 / the first endpoint of c1), when relative to a target request on that endpoint (before it is sent / while the stub delays its headers / after j = 1..5 streamed chunks), 0-3 bystanders (streams or held requests on the other endpoint of c1 and on cluster c2); oracle: the target ends at the client and its context dies at the stub within 2 s of the removal; afterwards requests to the deleted cluster get 503 and nothing is forwarded, the removed endpoint is never picked again; bystander streams keep delivering chunks for 300 ms and finish normally when released, held bystander requests return 200; non-trivial = the removal happens while the target is connecting or streaming and there is >= 1 bystander; distinct by FNV-64 of the plan")
-	stats.Check(t, stats.N(12, 150), func(t *rapid.T) {
+	stats.Check(t, stats.N(20, 150), func(t *rapid.T) {
 		what := rapid.SampledFrom([]string{"cluster", "endpoint"}).Draw(t, "remove")
 		when := rapid.SampledFrom([]string{"before", "connecting", "streaming", "streaming"}).Draw(t, "when")
 		j := rapid.IntRange(1, 5).Draw(t, "chunksBefore")
